@@ -37,6 +37,9 @@ pub enum H {
     Bind(i32, G, Box<H>),
     /// `a.followed_by(b)`.
     Seq(Box<H>, Box<H>),
+    /// `a.and_then(|()| b)`: like `Seq`, but `b` is only constructed once `a` (and everything `a`
+    /// triggered) has completed.
+    Then(Box<H>, Box<H>),
     Fail,
     /// `context.suspend(async { body })`; the tag identifies the suspended cascade.
     Suspend(i32, Box<H>),
@@ -74,7 +77,7 @@ impl H {
     pub fn size(&self) -> usize {
         match self {
             H::Bind(_, _, b) | H::Suspend(_, b) => 1 + b.size(),
-            H::Seq(a, b) => 1 + a.size() + b.size(),
+            H::Seq(a, b) | H::Then(a, b) => 1 + a.size() + b.size(),
             _ => 1,
         }
     }
@@ -95,7 +98,7 @@ impl H {
                 *t = id;
                 b.number(next);
             }
-            H::Seq(a, b) => {
+            H::Seq(a, b) | H::Then(a, b) => {
                 a.number(next);
                 b.number(next);
             }
@@ -108,7 +111,7 @@ impl H {
         }
         match self {
             H::Bind(_, _, b) | H::Suspend(_, b) => b.contains(f),
-            H::Seq(a, b) => a.contains(f) || b.contains(f),
+            H::Seq(a, b) | H::Then(a, b) => a.contains(f) || b.contains(f),
             _ => false,
         }
     }
@@ -131,6 +134,7 @@ impl H {
             H::GetM(_) => "GetM".into(),
             H::Bind(_, g, b) => format!("{:?}>>=\\y.({})", g, b.shape()),
             H::Seq(a, b) => format!("({};{})", a.shape(), b.shape()),
+            H::Then(a, b) => format!("({}>>{})", a.shape(), b.shape()),
             H::Fail => "Fail".into(),
             H::Suspend(_, b) => format!("Suspend({})", b.shape()),
         }
@@ -155,6 +159,7 @@ impl fmt::Display for H {
             H::GetM(t) => write!(f, "GetM#{}", t),
             H::Bind(t, g, b) => write!(f, "{:?}#{}>>=\\y.({})", g, t, b),
             H::Seq(a, b) => write!(f, "({} ; {})", a, b),
+            H::Then(a, b) => write!(f, "({} >> {})", a, b),
             H::Fail => write!(f, "Fail"),
             H::Suspend(t, b) => write!(f, "Suspend#{}({})", t, b),
         }
@@ -291,6 +296,7 @@ impl Trees {
                     for a in la.iter() {
                         for b in lb.iter() {
                             out.push(H::Seq(Box::new(a.clone()), Box::new(b.clone())));
+                            out.push(H::Then(Box::new(a.clone()), Box::new(b.clone())));
                         }
                     }
                 }
